@@ -153,25 +153,47 @@ def run_variant(v, tier='quick'):
     return worst, ' | '.join(d for _, d in outs)
 
 
+def _one(args):
+    name, props = args
+    import copy
+    from selftest.variants import VARIANTS
+    v = copy.copy([x for x in VARIANTS if x.name == name][0])
+    v.prop = props
+    st, d = run_variant(v)
+    return name, v.kind, props, st, d
+
+
 def main():
+    """harness.py [props...] [-k substr] [-j N]: runs the variants (restricted to the named properties) in N processes"""
     import argparse
+    import multiprocessing as mp
     from selftest.variants import VARIANTS
     ap = argparse.ArgumentParser()
     ap.add_argument('props', nargs='*')
     ap.add_argument('-k', default=None)
+    ap.add_argument('-j', type=int, default=12)
     args = ap.parse_args()
     want = {p.upper() for p in args.props}
-    bad = 0
+    jobs = []
     for v in VARIANTS:
-        props = v.prop if isinstance(v.prop, (tuple, list)) else (v.prop,)
-        if want and not (want & set(props)):
+        props = tuple(v.prop) if isinstance(v.prop, (tuple, list)) else (v.prop,)
+        if want:
+            props = tuple(p for p in props if p in want)
+        if not props:
             continue
         if args.k and args.k not in v.name:
             continue
-        st, d = run_variant(v)
+        jobs.append((v.name, props))
+    if args.j > 1 and len(jobs) > 1:
+        with mp.get_context('fork').Pool(args.j) as pool:
+            results = pool.map(_one, jobs, chunksize=1)
+    else:
+        results = [_one(j) for j in jobs]
+    bad = 0
+    for name, kind, props, st, d in results:
         if st != 'ok':
             bad += 1
-        print('%-11s %-7s %-8s %-45s %s' % (st, v.kind, '/'.join(props), v.name, d[:400]))
+        print('%-11s %-7s %-8s %-45s %s' % (st, kind, '/'.join(props) if len(props) < 4 else '%d props' % len(props), name, d[:400]))
     print('%d variants not ok' % bad)
     sys.exit(1 if bad else 0)
 
